@@ -564,6 +564,11 @@ def check_handler_site(c: Ctx, u: Unit, g, call: ast.Call) -> str | None:
         container = (st.targets[0] if isinstance(st, ast.Assign) else st.target).id
         src = U(comp.generators[0].iter)
         c.ok(where(u, call), f'one execute_handler task per element of {src} (collected in `{container}`)')
+    elif loop is not None and isinstance(spawn, ast.Call) and isinstance(parent_of(spawn), ast.Call) and call_name(parent_of(spawn)) in ('append', 'add') and isinstance(parent_of(spawn).func, ast.Attribute):
+        # `tasks.append(create_task(..))`: collected without being bound to a name first
+        check_handler_loop(c, u, g, loop, call, 'execute_handler')
+        container = U(parent_of(spawn).func.value)
+        src = U(loop.iter)
     elif loop is not None:
         check_handler_loop(c, u, g, loop, call, 'execute_handler')
         if not (isinstance(st, ast.Assign) and isinstance(st.targets[0], ast.Name)):
@@ -611,6 +616,37 @@ def check_handler_site(c: Ctx, u: Unit, g, call: ast.Call) -> str | None:
             c.fail(u, f'await loop over {container} has {len(aw)} awaits', 'handler tasks are not awaited exactly once each', node=loops2[0])
         else:
             check_handler_loop(c, u, g, loops2[0], aw[0], 'await task')
+    elif len(loops2) > 1 and isinstance(spawn, ast.Call) and call_name(spawn) == 'create_task':
+        # several await loops over the container (e.g. one per handler on a serial bus, one at the end on a parallel bus): each must be a proper await loop, and no path
+        # from the creation of a task to the end of the function may avoid all of them while the container still holds the task
+        from .common import serial_task_discipline, task_completion_barriers
+
+        for lp2 in loops2:
+            aw = [x for x in ast.walk(lp2) if isinstance(x, ast.Await)]
+            if len(aw) == 1:
+                check_handler_loop(c, u, g, lp2, aw[0], 'await task')
+        from sa.cfg import search as _search2
+
+        barriers = task_completion_barriers(u, g, spawn)
+
+        def post(n_, env):
+            if n_.kind == 'stmt' and n_.ast is not None:
+                for x in ast.walk(n_.ast):
+                    if isinstance(x, ast.Call) and isinstance(x.func, ast.Attribute) and isinstance(x.func.value, ast.Name):
+                        if x.func.attr in ('append', 'add'):
+                            env[x.func.value.id] = 'Ty'
+                        elif x.func.attr == 'clear':
+                            env[x.func.value.id] = 'F'
+
+        fx = Facts(lambda a: a.isidentifier() or a.endswith('.parallel_handlers'), cg=c.cg, unit=u, post=post)
+        miss = None
+        for start in g.nodes_of(st):
+            miss = miss or _search2([(start, ())], is_target=lambda n_, d: n_.kind == 'exit', is_barrier=lambda n_, d: n_.id in barriers,
+                                    edge_ok=lambda n_, e, d: None if e.is_exc else fx.edge_ok(n_, e, d), transfer=fx.transfer)
+        if miss is None and barriers:
+            c.ok(where(u, st), f'every task put into {container} is awaited by one of {len(loops2)} await loops before the function returns')
+        else:
+            c.fail(u, f'a task put into {container} can reach the end of the function without being awaited', 'handler tasks are not all awaited', node=st, witness=c.path(g.nodes_of(st)[0], miss) if miss else [])
     else:
         c.fail(u, f'no unique construct awaiting the tasks in {container}', 'handler tasks are not all awaited', node=st)
     return src
@@ -694,30 +730,43 @@ def c01_5(c: Ctx) -> None:
     g = c.cfg(u)
     inv = [(x, call) for x, call in handler_invocations(c) if x.key == u.key]
     c.floor(len(inv), 2, 'handler invocations in execute_handler (async via create_task, sync direct)')
-    # guard test: an `if <...>.started_at is not None:` whose body raises
-    guards = [n for n in g.live_nodes() if n.kind == 'if' and 'started_at' in U(n.ast.test) and any(isinstance(b, ast.Raise) for b in n.ast.body)]
     started_updates = [n for n in g.live_nodes() if any(call_name(cl) == 'event_result_update' and U(q.kw(cl, 'status')) == "'started'" for cl in q.node_calls(n))]
+    # the already-started guard, decided by evaluating the function's prefix (everything before the statement that marks the result 'started') over the states the handler's result
+    # record can be in: it must raise for a record that has started (started / completed / error) and fall through for no record or a pending one
+    body = [st_ for st_ in u.node.body if not (isinstance(st_, ast.Expr) and isinstance(st_.value, ast.Constant))]
+    upd_idx = next((i for i, st_ in enumerate(body) if any(isinstance(x, ast.Call) and call_name(x) == 'event_result_update' and U(q.kw(x, 'status')) == "'started'" for x in ast.walk(st_))), None)
+    guard_ok = False
+    if upd_idx is not None:
+        eps = u.params()
+        ov = {'get_handler_id': lambda *a: 'HID', 'get_handler_name': lambda *a: 'name', 'str': lambda *a: 's', 'id': lambda *a: 1}
+        verdicts = []
+        for status, started, done in [(None, None, None), ('pending', None, None), ('started', 'T0', None), ('completed', 'T0', 'T1'), ('error', 'T0', 'T1')]:
+            results = {} if status is None else {'HID': Rec(status=status, started_at=started, completed_at=done, handler_id='HID')}
+            ai = AbsInt(calls=ov)
+            env = {eps[0]: Obj('EventBus', 'b'), eps[1]: Rec(event_results=results, event_id='E', event_path=['b'], event_parent_id=None), eps[2]: Obj('function', 'h')}
+            ai.run(body[:upd_idx], env)
+            if ai.undecided:
+                raise AnalysisError(f'execute_handler: test `{U(ai.undecided[0])[:70]}` before the started mark is undecided for an existing result in state {status}')
+            verdicts.append((status, bool(ai.raised), bool(ai.returns)))
+        wrong = [(s_, r_) for s_, r_, ret_ in verdicts if r_ != (s_ in ('started', 'completed', 'error')) or ret_]
+        if not wrong:
+            guard_ok = True
+            c.ok(where(u, body[upd_idx]), "before marking the result 'started', execute_handler raises exactly when the record has already started (started / completed / error); no record or a pending one passes")
+        else:
+            for s_, r_ in wrong:
+                if s_ in ('started', 'completed', 'error'):
+                    c.fail(u, f'no refusal for an existing result in state {s_}', f'the double-execution guard (raise when the result already has started_at) is gone for a result in state {s_!r}: a handler can be invoked '
+                           'although its result already records a start', node=body[upd_idx])
+                else:
+                    c.fail(u, f'refuses a handler whose result is {s_ or "absent"}', f'execute_handler refuses a handler that has not run yet (result {s_ or "absent"}): it is never invoked for this event', node=body[upd_idx])
     for _, call in inv:
         st = q.stmt_of(call)
         for n in g.nodes_of(st):
-            if not guards:
-                c.fail(u, 'no already-started guard before handler invocation', 'the double-execution guard (raise when the result already has started_at) is gone', node=st)
-            else:
-                gid = {x.id for x in guards}
-                outer_false: set[tuple[int, str]] = set()
-                for gn in guards:
-                    o = q.enclosing(gn.ast, (ast.If,))
-                    if o is not None:
-                        for on in g.nodes_of(o, ('if',)):
-                            outer_false.add((on.id, 'false'))
-                from sa.cfg import search
-
-                p = search([(g.entry, ())], is_target=lambda x, d: x is n, is_barrier=lambda x, d: x.id in gid,
-                           edge_ok=lambda x, e, d: None if (x.id, e.label) in outer_false else d)
-                if p is None:
-                    c.ok(where(u, st), f'`{q.stmt_text(st, 60)}` is reachable only past the already-started guard')
-                else:
-                    c.fail(u, f'handler invocation `{q.stmt_text(st, 60)}` reachable without the started_at guard', 'a handler can be invoked although its result already records a start', node=st, witness=c.path(g.entry, p))
+            if upd_idx is None:
+                pass  # reported below: no started mark at all
+            elif guard_ok:
+                # the guard sits in the prefix: the invocation must come after the started mark (checked next), hence after the guard
+                pass
             if not started_updates:
                 c.fail(u, "no event_result_update(status='started') before handler invocation", "the handler runs without its result being marked 'started' first", node=st)
             else:
@@ -756,6 +805,19 @@ def c01_5(c: Ctx) -> None:
             c.fail(w, f'{desc} -> returns {rets}', f'_would_create_loop returns {rets} for {desc} (must be {want}): ' + ('the handler would run a second time for the same event' if want else 'a fresh handler would be skipped'))
 
 
+def _processes_what_it_dequeued(cu: Unit, call: ast.Call) -> bool:
+    if not call.args or not isinstance(call.args[0], ast.Name) or not isinstance(call.func, ast.Attribute):
+        return False
+    var, recv = call.args[0].id, U(call.func.value)
+    defs = [n.value for n in own_nodes(cu.node) if isinstance(n, (ast.Assign, ast.AnnAssign)) and n.value is not None
+            and any(isinstance(t, ast.Name) and t.id == var for t in (n.targets if isinstance(n, ast.Assign) else [n.target]))]
+    if var in cu.params():
+        return False
+    deq = [d for d in defs if U(d) in (f'{recv}.event_queue.get_nowait()', f'await {recv}.event_queue.get()')]
+    rest = [d for d in defs if d not in deq and not (isinstance(d, ast.Constant) and d.value is None)]
+    return bool(deq) and not rest
+
+
 @ob('C01.6', 'WMC', 'handler values are invoked only in execute_handler; execute_handler is called only by _execute_handlers; that only by process_event; '
     'that only by step and the inline processing loop')
 def c01_6(c: Ctx) -> None:
@@ -781,6 +843,10 @@ def c01_6(c: Ctx) -> None:
         for cu, call in cs:
             if cu.key in own:
                 c.ok(where(cu, call), f'{name} called from {cu.qualname}')
+            elif name == 'EventBus.process_event' and _processes_what_it_dequeued(cu, call):
+                # a consumer of its own: it takes the event off the bus's queue itself, so every dequeue-site obligation (C01.3 reaches process_event, C02.4 under the lock,
+                # C10.5 task_done pairing, C16.4 not on a stopped bus) is checked at that site
+                c.ok(where(cu, call), f'{name} called from {cu.qualname} with the event it has just taken off the queue (checked as a dequeue site)')
             else:
                 c.fail(cu, f'calls {name}: {q.stmt_text(q.stmt_of(call), 80)}', f'{name} is called from {cu.qualname}, outside the delivery chain', node=call)
 
@@ -996,19 +1062,39 @@ def c01_11(c: Ctx) -> None:
     incs = [n for n in incs if isinstance(getattr(n, 'value', None), (ast.Constant, ast.BinOp)) and (not isinstance(n, ast.AugAssign) or (isinstance(n.value, ast.Constant) and n.value.value == 1))]
     if not incs:
         raise AnalysisError(f'{u}: no `+= 1` of the recursion depth found')
+    hid = u.params()[2] if len(u.params()) > 2 else 'handler_id'
     for inc in incs:
-        tests = [a.test for a in q.ancestors_of(inc) if isinstance(a, ast.If) and q.lexically_in(inc, a, 'body') and '.status' in U(a.test)]
+        depth_var = U(inc.target if isinstance(inc, ast.AugAssign) else inc.targets[0])
+        # the statements that decide whether this ancestor counts: the stretch of the enclosing block (function body or loop body) that ends with the statement containing the
+        # increment and starts after the last statement that binds the ancestor (the object whose event_results are consulted).  It is evaluated abstractly per result status.
+        blk_owner = next((a for a in q.ancestors_of(inc) if isinstance(a, (ast.For, ast.While, ast.AsyncFor, ast.FunctionDef, ast.AsyncFunctionDef))), u.node)
+        blk = blk_owner.body
+        k = next((i for i, st_ in enumerate(blk) if st_ is inc or any(x is inc for x in ast.walk(st_))), None)
+        if k is None:
+            raise AnalysisError(f'{u}: the increment of the recursion depth is not in the body of its enclosing block')
+        holders = {x.value.value.id for st_ in blk[: k + 1] for x in ast.walk(st_) if isinstance(x, ast.Attribute) and x.attr == 'event_results' and isinstance(x.value, ast.Name)
+                   for x in [ast.Attribute(value=x, attr='', ctx=ast.Load())]}
+        j = k
+        while j > 0:
+            prev = blk[j - 1]
+            binds = {t.id for n_ in ast.walk(prev) if isinstance(n_, (ast.Assign, ast.AnnAssign, ast.AugAssign, ast.For)) for t in ast.walk(n_.target if not isinstance(n_, ast.Assign) else ast.Tuple(elts=n_.targets, ctx=ast.Store()))
+                     if isinstance(t, ast.Name)}
+            if binds & holders or isinstance(prev, (ast.For, ast.While, ast.AsyncFor)):
+                break
+            j -= 1
         verdicts = {}
         for st in ('pending', 'started', 'completed', 'error'):
-            val: bool | None = True
-            for t in tests:
-                recs = {x.value.id for x in ast.walk(t) if isinstance(x, ast.Attribute) and x.attr == 'status' and isinstance(x.value, ast.Name)}
-                ai = AbsInt()
-                v = ai.truth(ai.ev(t, {r: Rec(status=st) for r in recs}))
-                val = None if (v is None or val is None) else (val and v)
-            verdicts[st] = val
-        if any(v is None for v in verdicts.values()):
-            raise AnalysisError(f'{u}: the status filter of the recursion count is undecided ({[U(t)[:50] for t in tests]})')
+            ai = AbsInt(calls={'get_handler_name': lambda *a_: 'name', 'str': lambda *a_: 's', 'id': lambda *a_: 1})
+            rec = Rec(status=st, started_at=None if st == 'pending' else 'T0', completed_at='T1' if st in ('completed', 'error') else None, handler_id='HID')
+            env = {h_: Rec(event_results={'HID': rec}, event_id='P', event_parent_id=None, event_path=['b']) for h_ in holders}
+            env.update({hid: 'HID', depth_var: 0, u.params()[0]: Obj('EventBus', 'b')})
+            out = ai.run(blk[j: k + 1], env)
+            if ai.undecided:
+                raise AnalysisError(f'{u}: the status filter of the recursion count is undecided (`{U(ai.undecided[0])[:60]}`) for a result in state {st}')
+            final = (out or env).get(depth_var, UNKNOWN) if not ai.returns else (ai.returns[-1] if isinstance(ai.returns[-1], int) else (out or env).get(depth_var, UNKNOWN))
+            if final is UNKNOWN or not isinstance(final, int):
+                raise AnalysisError(f'{u}: the recursion depth after one ancestor in state {st} is undecided')
+            verdicts[st] = final == 1
         want = {'pending': True, 'started': True, 'completed': True, 'error': False}
         if verdicts == want:
             c.ok(where(u, inc), 'an ancestor counts towards the recursion depth iff the handler\'s result on it is pending / started / completed')
